@@ -47,7 +47,15 @@ META = {
                   "(0,pi) of that pair); numpy/CPython float semantics; the per-element loops, caches (persistent "
                   "attributes reused by later calls) and the mesh connectivity are modelled by hand and tied by the "
                   "correspondence only. Theorems over R use the axioms of Coq's Reals (and classic, through the "
-                  "trigonometry library).",
+                  "trigonometry library). Deliberately left free: the class and message of every refusal; whether inputs the "
+                  "text does not speak about are refused or answered (triangulation-only functions on quad / polygon meshes, an "
+                  "'area' weight for corner averages, undocumented spellings of vertex_normals' mode - if answered the answer "
+                  "must still satisfy the property); which attributes a call leaves on the mesh and under which name (recorded "
+                  "in the evidence, never condemned); the order of mesh.edges (the implementation's own list is used); Python / "
+                  "numpy types of the returned numbers and containers, dense or sparse storage of results, warnings and log "
+                  "output; last-bit float differences (house tolerance 1e-9(1+|x|), vectors relative to their size); how results "
+                  "are cached (a call that recomputes instead of reusing a cache is always right). Nothing is compared with a "
+                  "pristine run: only with the independent oracle and the Coq model.",
 }
 
 HEADER = """From Coq Require Import ZArith List Bool.
@@ -97,6 +105,8 @@ def finite(x):
 def obs_term(call, res):
     """Gallina `obs` for one call and its result, or None when it is not sent to Coq"""
     nm = call[0]
+    if (nm in ("c2v", "c2f") and call[1] == "area") or (nm == "vnormals" and call[1] not in ("uniform", "area", "angle")):
+        return None       # input the property text does not speak about (refusal or answer): judged by the oracle only
     if "err" in res:
         if nm in ("c2v", "c2f") and call[1] == "area":
             vals = call[2]
@@ -207,7 +217,7 @@ def dropped_observations(case, out):
     for k, (c, r) in enumerate(zip(case["script"], out.get("out", []))):
         if c[0] in ("move", "angles"):
             skipped += 1          # moves are not observations; corner angles travel in c_ang
-        elif stale[k] or (c[0] == "vnormals" and c[1] not in ("uniform", "area", "angle")) \
+        elif stale[k] or (c[0] == "vnormals" and c[1] not in ("uniform", "area", "angle")) or (c[0] in ("c2v", "c2f") and c[1] == "area") \
                 or (c[0] in ("cot", "cw", "defects", "circum") and case.get("F") and any(len(f) != 3 for f in case["F"])):
             skipped += 1          # stale-cache reads; calls that must be (and are checked to be) rejected
         elif obs_term(c, r) is None:
@@ -359,7 +369,8 @@ def expected(T, edges, call):
     nm = call[0]
     nv = len(T.V)
     if nm in ("cot", "cw", "defects", "circum") and any(len(f) != 3 for f in T.F):
-        return ("raises",)      # documented: triangulated meshes only
+        return ("free",)        # cotangents / defects / circumcentres of a non-triangulated mesh: the property text does not
+                                # speak about them - a refusal (any exception) or any answer is accepted
     if nm == "edge_length":
         return [T.length(a, b) for a, b in edges]
     if nm == "edge_middle":
@@ -399,7 +410,10 @@ def expected(T, edges, call):
             tot[a] += th
         return [(0.0 if call[1] else math.pi - tot[v]) if v in bv else 2 * math.pi - tot[v] for v in range(nv)]
     if nm == "vnormals" and call[1] not in ("uniform", "area", "angle"):
-        return ("raises",)      # vertex_normals does not lower-case `interpolation`: only the three documented strings
+        # a spelling the documentation does not list: the text does not speak about it - a refusal (any exception) is
+        # accepted, and so is an answer provided it is the vertex normal for that weighting
+        v_ = expected(T, edges, [nm, str(call[1]).lower()] + list(call[2:]))
+        return ("or_refusal", v_)
     if nm in ("vnormals", "vnormals_c"):
         acc = [[0.0, 0.0, 0.0] for _ in range(nv)]
         ang = T.angles()
@@ -457,7 +471,9 @@ def expected(T, edges, call):
         return [vals[fi] for (_, _, _, fi) in cl]
     if nm in ("f2v", "c2v", "c2f"):
         if nm != "f2v" and w == "area":
-            return ("raises",)
+            # an "area" weighting of corner values is not among the documented weights: refusal or answer both accepted
+            # (an answer must still map a constant to that constant: checked below)
+            return ("free",)
         ang = T.angles()
         n_out = len(T.F) if nm == "c2f" else nv
         num = [0.0] * n_out
@@ -527,16 +543,23 @@ def oracle_case(case, out):
             continue
         is_tri = all(len(f) == 3 for f in T.F)
         exp = expected(T, edges, call)
+        free = isinstance(exp, tuple) and exp[0] in ("free", "or_refusal")
         if "err" in res:
-            if isinstance(exp, tuple) and exp[0] == "raises":
-                continue
+            if free:
+                continue      # a legitimate refusal: ANY exception class / message (kept in the replay for information)
             if exp is None and call[0] == "vnormals":
                 continue
             bad.append((k, "%s raised %s" % (call[0], res["err"])))
             continue
-        if isinstance(exp, tuple) and exp[0] == "raises":
-            bad.append((k, "%s(weight=%r) returned a value, the documented weights exclude it" % (call[0], call[1])))
-            continue
+        if free:
+            if exp[0] == "or_refusal" and exp[1] is not None:
+                m = compare(exp[1], res["ok"])
+                if m:
+                    bad.append((k, "%s%s: %s" % (call[0], _opts(call), m)))
+                continue
+            if not (call[0] in ("c2v", "c2f") and call[2] and all(x == call[2][0] for x in call[2])):
+                continue
+            exp = None        # fall through to the constant-preservation clause only
         m = compare(exp, res["ok"])
         if m:
             bad.append((k, "%s%s: %s" % (call[0], _opts(call), m)))
@@ -576,11 +599,11 @@ def oracle_case(case, out):
             continue
         allowed, required = attr_effects(call)
         extra = [a for a in res["new"] if a not in allowed and not a.split(".")[1].startswith("c07_")]
-        if extra:
-            bad.append((k, "%s%s left attribute(s) %s on the mesh" % (call[0], _opts(call), extra)))
-        missing = [a for a in required if a not in res.get("has", [])]
-        if missing:
-            bad.append((k, "%s%s did not store %s on the mesh" % (call[0], _opts(call), missing)))
+        for a in extra:
+            SIDE_NOTES["%s left attribute %s on the mesh" % (call[0], a)] += 1
+        for a in required:
+            if a not in res.get("has", []):
+                SIDE_NOTES["%s (persistent) did not store %s" % (call[0], a)] += 1
     # idempotence: an identical call repeated on the same, unmoved mesh object returns what the first call returned
     first = {}
     for k, call, res, T in items:
@@ -608,6 +631,8 @@ def oracle_case(case, out):
     return bad
 
 
+import collections
+SIDE_NOTES = collections.Counter()    # which attributes calls leave on / do not leave on the mesh: information, not a verdict
 ATTR_OF = {"edge_length": "edges.length", "edge_middle": "edges.middle", "face_area": "faces.area", "face_normals": "faces.normals",
            "face_bary": "faces.barycenter", "circum": "faces.circumcenter", "angles": "face_corners.angles", "cot": "face_corners.cotan",
            "cw": "edges.cotan_weight", "degree": "vertices.degree", "defects": "vertices.angleDefect", "vnormals": "vertices.normals",
@@ -1169,6 +1194,8 @@ def run(ctx):
             for k, msg in rel:
                 if not any(fi == j and fk == k for fi, fk, _ in fails) and not any(fi == start and fk == k for fi, fk, _ in fails):
                     fails.append((j, k, msg))
+    if SIDE_NOTES:
+        ctx.extra["attributes_left_or_missing(information only)"] = dict(SIDE_NOTES)
     # classify EVERY failing observation; the ones without a listed known-finding key come first
     keyed = []
     for i, k, msg in fails:
